@@ -109,6 +109,23 @@ def check(rep, model, tier):
         else:
             rep.violation('ORIG-SIG', f'{method}:{sink}', site2, expected='(compute_shape_features(...) result, the function\'s own sig)',
                           found=[(T.brief(e['bound'].get(sk.params[0]), 60), T.brief(e['bound'].get(sk.params[1]), 40)) for e in evs])
+    # return_samples only selects columns at the very end: every feature / label computation sees the same arguments with and without sample columns
+    rep.rule('RS-LATE', 'with center_extrema="trough", the calls that compute shape features, burst features and labels receive identical arguments for return_samples=True and '
+                        'False (the option only drops sample_ columns from the finished table), so the renamed table the burst features read is the same in both cases')
+    for method in ('cycles', 'amp'):
+        seen = {}
+        for rs in (T.TRUE, T.FALSE):
+            res, ctx = E.run(model, 'compute_features', {'burst_method': C(method), 'center_extrema': C('trough'), 'threshold_kwargs': ('dict', ()),
+                                                        'burst_kwargs': NONE, 'return_samples': rs}, no_inline=E.HEAVY)
+            seen[rs[1]] = [(e['name'].rsplit('.', 1)[-1], tuple(sorted((k, v) for k, v in e['bound'].items()))) for e in ctx.trace
+                           if e['kind'] == 'pkgcall' and not e.get('inlined') and e['name'].rsplit('.', 1)[-1] not in ('drop_samples_df',)]
+        site2 = f'{fn.path}:{fn.node.lineno} compute_features[{method},trough]'
+        if seen[True] == seen[False] and seen[True]:
+            rep.ok('RS-LATE', method, site2, found=f'{len(seen[True])} delegated calls with identical arguments')
+        else:
+            diff = [(a[0], [k for (k, v), (k2, v2) in zip(a[1], b[1]) if v != v2] or 'different parameters') for a, b in zip(seen[True], seen[False]) if a != b]
+            rep.violation('RS-LATE', method, site2, expected='the same delegated calls with the same arguments for return_samples=True and False',
+                          found=f'{diff[:3]} ({len(seen[True])} vs {len(seen[False])} calls)')
     rep.floor('mirror comparisons', n, 19 + 9)
 
 
